@@ -377,7 +377,10 @@ fn mode_stress(eng: &Engine, report: &mut Report) {
                 consumed_global += total;
             }
             SourceModel::Unknown => {
+                // the priority source matches neither calibrated model (or the reference stream is not reproducible):
+                // the stream sub-check is not applicable, the verdict rests on the race detectors and on the treap results
                 report.inc("streams_unjudged_model_unknown");
+                report.extra("history_subcheck", "not applicable: the priority source matches neither the per-thread nor the process-global sequential model");
             }
         }
     }
